@@ -70,7 +70,7 @@ package types
 //@   deterministic[C01.no_node_local_source]
 //@   modifies nothing
 //@   ensures[C05.tr_gas_key_layout,C13.tr_gas_key_layout] len(result) == 9 && bytes(result) == bcat(b1(6), be64(txIdx)) && fresh(base(result))
-//@   panics[C13.tr_gas_key_never_panics] never
+//@   panics[C05.tr_gas_key_never_panics,C13.tr_gas_key_never_panics] never
 //@ func TxLogCountTransientKey(txIdx uint64) []byte
 //@   deterministic[C01.no_node_local_source]
 //@   modifies nothing
